@@ -652,6 +652,40 @@ Theorem replace_none : forall sanitize repl convert d,
   assoc (sanitize d) repl = None -> replace_def sanitize repl convert d = convert d.
 Proof. intros sanitize repl convert d H. unfold replace_def. rewrite H. reflexivity. Qed.
 
+(* the key is the sanitised DEFINITION name, whatever the schema's title *)
+Theorem replace_lookup_ignores_title : forall sanitize repl convert n t,
+  replace_key sanitize (mkDef n t) = sanitize n /\
+  get_type_name sanitize (NRequired n) t = Some (replace_key sanitize (mkDef n t)) /\
+  (forall r, assoc (sanitize n) repl = Some r ->
+     replace_definition sanitize repl convert (mkDef n t) = native_entry r) /\
+  (assoc (sanitize n) repl = None ->
+     replace_definition sanitize repl convert (mkDef n t) = convert (mkDef n t)) /\
+  (forall t', (exists r, replace_definition sanitize repl convert (mkDef n t) = native_entry r /\
+                         assoc (sanitize n) repl = Some r) <->
+              (exists r, replace_definition sanitize repl (fun d => convert (mkDef (d_name d) t)) (mkDef n t') = native_entry r /\
+                         assoc (sanitize n) repl = Some r)).
+Proof.
+  intros sanitize repl convert n t. unfold replace_definition, replace_key. simpl.
+  split; [reflexivity|]. split; [reflexivity|]. split; [intros r ->; reflexivity|].
+  split; [intros ->; reflexivity|].
+  intros t'. destruct (assoc (sanitize n) repl) as [r|].
+  - split; intros _; exists r; split; reflexivity.
+  - split; intros [r [_ H]]; discriminate H.
+Qed.
+
+(* the key derived "the way type naming does" under Name::Suggested is a DIFFERENT function:
+   a titled definition would miss its replacement and a definition titled like a key would
+   be replaced (the seeded regression replayed in notes/C14.md) *)
+Theorem suggested_key_differs : exists (sanitize : ustring -> ustring) (repl : list (ustring * replacement)) n t (r : replacement),
+  assoc (sanitize n) repl = Some r /\
+  get_type_name sanitize (NSuggested n) t <> Some (replace_key sanitize (mkDef n t)) /\
+  (match get_type_name sanitize (NSuggested n) t with Some k => assoc k repl | None => None end) = None.
+Proof.
+  exists (fun x => x), [(u "HandRolled", mkRepl (u "String") [])], (u "HandRolled"),
+         (Some (u "a hand rolled thing")), (mkRepl (u "String") []).
+  split; [vm_compute; reflexivity|]. split; [vm_compute; discriminate|]. vm_compute. reflexivity.
+Qed.
+
 (* ------------------------------------------------------------------ conversion cache *)
 Section CacheProofs.
   Variable Sch : Type.
